@@ -66,6 +66,9 @@ macro_rules! impl_observable_methods {
           let subscription = subject.clone().actual_subscribe(observer);
           let connected = InnerShareOp::Connected(subject.clone());
           let connectable = std::mem::replace(&mut *inner, connected);
+          // connecting may emit at once (a synchronous source) and what is
+          // downstream may subscribe to this very observable again
+          drop(inner);
 
           match connectable {
             InnerShareOp::Connectable(connectable) => connectable.connect(),
